@@ -12,6 +12,10 @@ from pvc.harness import unit
 from pvc import src as S
 from pvc import frames as F
 
+# property-level native oracle used as the replay of refuted obligations that carry no model-specific replay
+FALLBACK_REPLAY = {"handler": "purity_any", "input": {},
+                   "expected": "pipeflow leaves every non-underscore, non-result entry bit-identical; a history of calls gives the results of a fresh net"}
+
 PF = "pandapipes.pipeflow"
 
 
